@@ -9,9 +9,9 @@ package storage
 
 //@ func (WalletDB).IncrementKeysetCounter(keysetId, num)
 //@   trusted
-//@   modifies wdb.counter
-//@   ensures err == nil ==> wdb.counter == upd(old(wdb.counter), keysetId, old(wdb.counter)[keysetId] + num)
-//@   ensures err != nil ==> wdb.counter == old(wdb.counter)
+//@   modifies wdb.counter, wdb.saves
+//@   ensures err == nil ==> wdb.counter == upd(old(wdb.counter), keysetId, old(wdb.counter)[keysetId] + num) && wdb.saves == old(wdb.saves) + 1
+//@   ensures err != nil ==> wdb.counter == old(wdb.counter) && wdb.saves == old(wdb.saves)
 
 //@ func (WalletDB).GetKeysetCounter(keysetId)
 //@   trusted
